@@ -607,14 +607,7 @@ def withdraw_rules(R, env, prog, hctx, rule, pid):
     ok, off = guarded(hctx, G, prog, env.depth, found)
     R.ob(rule, "Withdraw:no-request-no-payout", ok, "a success exit is reachable for a caller without a request in the batch: %s" % (off,), fn=hk, found=found)
     # status must be Received
-    def status_guard(t):
-        if t[0] == "call" and t[1] in EQ:
-            a, b = t[2]
-            for x, y in ((a, b), (b, a)):
-                if x[0] == "field" and x[2] == "status" and batch(x[1]) and y[0] == "agg" and y[1].endswith("BatchStatus") and y[2] == "Received":
-                    return EQ[t[1]]
-        return None
-    G2 = Guard("status-received", boolean=status_guard)
+    G2 = status_guard(batch, "Received", "status-received")
     found = []
     ok, off = guarded(hctx, G2, prog, env.depth, found)
     R.ob(rule, "Withdraw:only-received-batches", ok, "a success exit is reachable for a batch whose status is not Received: %s" % (off,), fn=hk, found=found)
@@ -628,8 +621,40 @@ def fee_term(prog, t):
     return a, b, c
 
 
-def is_reward(prog, t):
-    return t[0] == "field" and t[2] == "amount" and funds_coin(prog, t[1])
+def is_reward(prog, t, _again=True):
+    """the amount of the ibc-denom coin attached to the message — taken in the handler or by a
+    local helper (`attached_ibc_token_amount(&config, &info.funds)?`)"""
+    if t[0] == "field" and t[2] == "amount" and funds_coin(prog, t[1]):
+        return True
+    if _again and t[0] == "payload":
+        c = unwrap_payload(t)
+        if c[0] == "call" and _body_of_call(prog, c) is not None:
+            from engine.analysis import resolve_head
+            r = resolve_head(prog, t)
+            if r != t:
+                return is_reward(prog, r, False)
+    return False
+
+
+def status_guard(batch_pred, status, name=None):
+    """Guard: execution continues only if <batch>.status is `status` — written as `== / !=` with
+    the BatchStatus value or as a `match` on the status (alone or inside a tuple pattern)."""
+    st = lambda x: x[0] == "field" and x[2] == "status" and batch_pred(x[1])
+
+    def boolean(t):
+        if t[0] == "call" and t[1] in EQ:
+            a, b = t[2]
+            for x, y in ((a, b), (b, a)):
+                if st(x) and y[0] == "agg" and y[1].endswith("BatchStatus") and y[2] == status:
+                    return EQ[t[1]]
+        return None
+
+    def variant(subj, names):
+        if st(subj) and status in names:
+            return {status}
+        return None
+
+    return Guard(name or ("status==" + status), boolean=boolean, variant=variant)
 
 
 def is_fee(prog, t):
